@@ -176,6 +176,59 @@ func c20R2(c *Ctx, id string) {
 			}
 		}
 		c.check(id+":common.CopyFile:refuses-existing-destination", cf, cf.Pos(), "CopyFile creates the destination only if Stat(dst) failed with not-exist (so the output can never be the source or any existing file)", ok, detail)
+		// the copy is COMPLETE: io.Copy reads the source file itself and the verified size is the file's size
+		okFull := false
+		detailFull := "no io.Copy(dst, src)"
+		for _, cp := range plainCallsIn(cf, "io.Copy") {
+			okFull = true
+			for _, l := range provenance(cp.Call.Args[1], provOpts{ThroughCall: throughAll}) {
+				if l.Kind == "call" && l.Name != "os.Open" {
+					okFull = false
+					detailFull = "the reader handed to io.Copy is derived through " + l.Name + ": only part of the source may be copied"
+				}
+			}
+			if !hasLeaf(provenance(cp.Call.Args[1], provOpts{}), "call", "os.Open") {
+				okFull = false
+				detailFull = "io.Copy does not read the file opened from srcPath"
+			}
+			// written is compared with Stat().Size() of the source, nothing else
+			cmpOK := false
+			ev := (*ssa.Extract)(nil)
+			for _, r := range *cp.Referrers() {
+				if ex, ok := r.(*ssa.Extract); ok && ex.Index == 0 {
+					ev = ex
+				}
+			}
+			if ev != nil {
+				for _, r := range *ev.Referrers() {
+					bo, ok := r.(*ssa.BinOp)
+					if !ok {
+						continue
+					}
+					other := bo.X
+					if other == ssa.Value(ev) {
+						other = bo.Y
+					}
+					cmpOK = true
+					for _, l := range provenance(other, provOpts{ThroughCall: throughAll}) {
+						if l.Kind == "call" && !(l.Name == "fs.FileInfo.Size" || l.Name == "os.(*File).Stat" || l.Name == "os.Open") {
+							cmpOK = false
+							detailFull = "the size the copy is verified against depends on " + l.Name
+						}
+						if l.Kind == "const" {
+							cmpOK = false
+						}
+					}
+				}
+			}
+			if !cmpOK && okFull {
+				okFull = false
+				if detailFull == "no io.Copy(dst, src)" {
+					detailFull = "the number of bytes copied is not verified against the source's size"
+				}
+			}
+		}
+		c.check(id+":common.CopyFile:complete-copy", cf, cf.Pos(), "CopyFile copies the source file itself with io.Copy (no length-limited reader) and verifies the byte count against the source's Stat().Size()", okFull, detailFull)
 		// and the source is opened read-only
 		okOpen := len(plainCallsIn(cf, "os.Open")) == 1 && len(plainCallsIn(cf, "os.OpenFile")) == 0
 		c.check(id+":common.CopyFile:source-read-only", cf, cf.Pos(), "CopyFile opens the source with os.Open (O_RDONLY)", okOpen, "the source is opened differently")
